@@ -3,10 +3,10 @@ package main
 // Rules over DecoderBuffer and Decoder (C04 C05 C06 C07 C17 C18).
 
 import (
-	"os"
 	"fmt"
 	"go/token"
 	"go/types"
+	"os"
 	"sort"
 	"strings"
 
